@@ -6,7 +6,7 @@ From Coq Require Import List ZArith Reals Lra Lia.
 From D3 Require Import Base.Ops Base.Vec Model.TetSym Gen.TetTables Model.TetMesh Model.TetMeshProc Checker.TetMesh
                        Proofs.TetMeshBase Proofs.TetMeshBox Proofs.TetMeshCyl
                        Proofs.TetMeshIcoKey Proofs.TetMeshIcoPure Proofs.TetMeshIco Proofs.TetMeshHelpers
-                       Proofs.TetMeshCaps Model.TetMeshBody Proofs.TetMeshBodyProofs.
+                       Proofs.TetMeshCaps Proofs.TetMeshCurved Model.TetMeshBody Proofs.TetMeshBodyProofs.
 Import ListNotations.
 Local Open Scope R_scope.
 
@@ -92,6 +92,22 @@ Theorem C17_capsule_volumes : forall radius height circ ring,
   tets_oriented 1 (mverts m) (mtets m) /\
   sum_vol6 1 (mverts m) (mtets m) = Some (capsule_total radius height circ ring).
 Proof. exact capsule_mesh_volumes. Qed.
+
+(** capsule: all vertices lie on the surface of the capsule or are the two medial points; potential =
+    distance to the surface = 0 resp. the radius (ring / circle inputs on the unit circle, cos theta >= 0) *)
+Theorem C17_capsule_potentials : forall radius height circ ring,
+  0 < radius -> 0 < height -> unit_pairs circ -> Forall (fun sc => 0 <= snd sc) circ -> unit_pairs ring ->
+  let m := capsule_mesh (O := ROps) radius height circ ring in
+  Forall2 (fun p q => q = capsule_depth radius (height / 2) p /\ (q = 0 \/ q = radius)) (mverts m) (mpots m) /\
+  Forall (fun p => seg_dist2 (height / 2) p <= radius * radius) (mverts m).
+Proof. exact capsule_mesh_potentials. Qed.
+
+(** the normalisation step of the icosphere puts every non-zero raw vertex on the sphere *)
+Theorem C17_icosphere_normalisation : forall radius (v : V3 R),
+  0 < radius -> 0 < vx v * vx v + vy v * vy v + vz v * vz v ->
+  let w := ico_normalize (O := ROps) radius (vzero (O := ROps)) v in
+  vx w * vx w + vy w * vy w + vz w * vz w = radius * radius.
+Proof. exact ico_normalize_on_sphere. Qed.
 
 (** ** make_triangular_icosphere (sphere / ellipsoid), EVERY subdivision order: the triangle
     list is a closed, consistently oriented surface; the midpoint cache is empty after each pass
@@ -232,6 +248,8 @@ Print Assumptions C17_cylinder_volumes.
 Print Assumptions C17_cylinder_classes.
 Print Assumptions C17_cylinder_potentials.
 Print Assumptions C17_capsule_volumes.
+Print Assumptions C17_capsule_potentials.
+Print Assumptions C17_icosphere_normalisation.
 Print Assumptions C17_rigid_body_reads_direct.
 Print Assumptions C17_icosphere_closed.
 Print Assumptions C17_cache_key_injective.
